@@ -433,7 +433,7 @@ pub fn combine_case(ctx: &mut Ctx, seed: u64) {
 }
 
 pub fn run(ctx: &mut Ctx) {
-    let n = ctx.budget(6_000, 1_000_000);
+    let n = ctx.budget(6_000, 3_000_000);
     let opts = GenOpts::canonical();
     for i in 0..n {
         let seed = ctx.rng.next();
@@ -482,7 +482,7 @@ pub fn run(ctx: &mut Ctx) {
             ctx.count("inputs_exhaustive");
             idx += ctx.nshards as u64;
         }
-        let n = ctx.budget(30_000, 3_000_000);
+        let n = ctx.budget(30_000, 9_000_000);
         for k in 0..n {
             let input = match k % 4 {
                 0 => alphabet::random(ALPHABET, &mut ctx.rng, 3, 30),
@@ -513,7 +513,7 @@ pub fn run(ctx: &mut Ctx) {
             ctx.count("inputs_random");
         }
     }
-    let n = ctx.budget(12_000, 2_000_000);
+    let n = ctx.budget(12_000, 6_000_000);
     for _ in 0..n {
         let seed = ctx.rng.next();
         combine_case(ctx, seed);
